@@ -67,6 +67,9 @@ type world struct {
 	uncached41 bool
 	// lastNames is the identifier renaming of the last inspection.
 	names40, names41 map[string]string
+	// lastEntry: when the last request (of anybody) entered the NFSv4.0 /
+	// NFSv4.1 server, on the fake clock (see lapsed.go).
+	lastEntry [2]time.Time
 }
 
 func newWorld(x *mc.X) *world {
@@ -94,7 +97,39 @@ func (w *world) compound(minor uint32, what string, ops ...nfsv4.NfsArgop4) *nfs
 	if w.x != nil {
 		w.x.CheckNoLocksHeld(what)
 	}
+	if enteredServer(minor, ops, res) {
+		w.lastEntry[minor&1] = w.clk.Now()
+	}
 	return res
+}
+
+// enteredServer: the request certainly went through the server's enter(),
+// where expired clients are collected (operations that call it before any
+// other check; I/O, PUTFH, REMOVE ... never or not always get there).
+func enteredServer(minor uint32, ops []nfsv4.NfsArgop4, res *nfsv4.Compound4res) bool {
+	if minor == 1 {
+		if len(ops) == 0 || len(res.Resarray) == 0 {
+			return false
+		}
+		switch ops[0].(type) {
+		case *nfsv4.NfsArgop4_OP_SEQUENCE:
+			_, is := res.Resarray[0].(*nfsv4.NfsResop4_OP_SEQUENCE)
+			return is && resopStatus(res.Resarray[0]) == nfsv4.NFS4_OK
+		case *nfsv4.NfsArgop4_OP_EXCHANGE_ID, *nfsv4.NfsArgop4_OP_CREATE_SESSION, *nfsv4.NfsArgop4_OP_DESTROY_SESSION, *nfsv4.NfsArgop4_OP_DESTROY_CLIENTID:
+			return len(ops) == 1 && len(res.Resarray) == 1 && res.Resarray[0].GetResop() == ops[0].GetArgop()
+		}
+		return false
+	}
+	for i, op := range ops {
+		if i >= len(res.Resarray) {
+			break
+		}
+		switch op.(type) {
+		case *nfsv4.NfsArgop4_OP_RENEW, *nfsv4.NfsArgop4_OP_SETCLIENTID, *nfsv4.NfsArgop4_OP_SETCLIENTID_CONFIRM, *nfsv4.NfsArgop4_OP_RELEASE_LOCKOWNER:
+			return true
+		}
+	}
+	return false
 }
 
 func encodeRes(res *nfsv4.Compound4res) []byte {
